@@ -532,6 +532,18 @@ def event_positions(prop):
     return out
 
 
+def alias_topics(prop):
+    """alias -> topic, as an external reference to the name means it. The terminator is read first: it may bind
+    again a name of the pattern's events (only the activator's names are closed to it), nothing refers to a
+    terminator's alias from outside, so the other binding is the one a reference means."""
+    out = {}
+    for _role, evn in sorted(event_positions(prop), key=lambda re: re[0] != 'terminator'):
+        for e in simple_events(evn):
+            if e[2] is not None:
+                out[e[2]] = e[1]
+    return out
+
+
 def num_lit(v):
     if isinstance(v, int):
         return ('lit', 'int', str(v)) if v >= 0 else ('un', '-', ('lit', 'int', str(-v)))
